@@ -198,7 +198,7 @@ def r_caller(cg, B, rep, tier):
 
 
 # ------------------------------------------------------------------------ callee ---
-def run_callee(cg, B, types, variadic=False, ret='int'):
+def run_callee(cg, B, types, variadic=False, ret='int', extra_locals=()):
     """assign_lvar_offsets + emit_text on a concrete function object"""
     it = cg.interp()
     it.opaque_fns.discard('has_flonum')
@@ -220,6 +220,14 @@ def run_callee(cg, B, types, variadic=False, ret='int'):
             t = Obj('Type', lazy=False, label='vaty'); t.fields.update({'kind': B.E['TY_ARRAY'], 'size': 136, 'align': 1, 'base': B.ty(it, 'char'), 'array_len': 136})
             va.fields.update({'ty': t, 'align': 1, 'is_local': 1, 'name': '__va_area__'})
             chain.append(va)
+        extras = []
+        for j, (sz, al, is_arr) in enumerate(extra_locals):
+            v = Obj('Obj', lazy=False, label='v%d' % j)
+            t = Obj('Type', lazy=False, label='vt%d' % j)
+            t.fields.update({'kind': B.E['TY_ARRAY'] if is_arr else B.E['TY_STRUCT'], 'size': sz, 'align': min(al, 8) if is_arr else al, 'base': B.ty(it, 'char') if is_arr else 0, 'array_len': sz})
+            v.fields.update({'ty': t, 'align': al, 'is_local': 1, 'name': 'v%d' % j})
+            extras.append(v); chain.append(v)
+        box['extras'] = extras
         params = []
         for i, tn in enumerate(types):
             p = Obj('Obj', lazy=False, label='p%d' % i)
